@@ -30,6 +30,12 @@ def floors(tier):
 
 
 def gen_cases(tier, seed):
+    pseudo = symfam.gen_pseudo_cases(tier, seed, 6, 1, n_pres=2) if tier == "quick" else \
+        symfam.gen_pseudo_cases(tier, seed, 6, 4, n_pres=3, groups=range(1, 195))
+    return _gen_cases(tier, seed) + pseudo
+
+
+def _gen_cases(tier, seed):
     if tier == "quick":
         return symfam.gen_cases(tier, seed, 6, per_group=1, n_pres=3, extra_random=20) + symfam.gen_letter_cases(tier, seed, 6, 2, n_pres=3) + symfam.gen_fixed_cases(tier, seed, 6, 6, n_pres=3)
     return symfam.gen_cases(tier, seed, 6, per_group=5, n_pres=6, extra_random=300) + symfam.gen_letter_cases(tier, seed, 6, 12, n_pres=4) + symfam.gen_fixed_cases(tier, seed, 6, 40, n_pres=4)
